@@ -731,9 +731,10 @@ func (x *seqRun) markSqueezed(r int, pushOverLimit bool) {
 	for c, le := range l {
 		need := x.w.store[c] && c != cZ                                         // a task that knows the block is there ...
 		needWB := need && (!le.have || (x.cfg.R > 0 && poolSize[c] <= x.cfg.R)) // ... and that it has to go out as a block
+		needDH := !need && x.asked[r][c].dh                                     // ... or, for an absent block, that a DONT_HAVE was asked for
 		ok := func(d peertask.Data) bool {
-			wb, _, hb, _ := decision.VerifTaskData(d)
-			return (hb || !need) && (wb || !needWB)
+			wb, dh, hb, _ := decision.VerifTaskData(d)
+			return (hb || !need) && (wb || !needWB) && (dh || !needDH)
 		}
 		found := false
 		if t != nil {
